@@ -5,6 +5,63 @@
 
 pub type Rg = (Bound<usize>, Bound<usize>);
 
+/// when set, a range argument is handed to the implementation (and to std) in its NATIVE Rust form
+/// (`a..b`, `a..`, `..b`, `..=b`, `a..=b`, `..`) whenever the bound pair has one; otherwise as the
+/// `(Bound, Bound)` tuple.  Set by the executor from the PRNG before every operation.
+pub static NATIVE_RANGES: std::sync::atomic::AtomicBool = std::sync::atomic::AtomicBool::new(false);
+
+/// every `RangeBounds<usize>` form behind one type (one monomorphisation of the code under test; the
+/// bound accessors of the native range types are the ones that run)
+pub enum AnyRange {
+    R(std::ops::Range<usize>),
+    From(std::ops::RangeFrom<usize>),
+    To(std::ops::RangeTo<usize>),
+    ToIncl(std::ops::RangeToInclusive<usize>),
+    Incl(std::ops::RangeInclusive<usize>),
+    Full,
+    Tuple(Rg),
+}
+
+impl std::ops::RangeBounds<usize> for AnyRange {
+    fn start_bound(&self) -> Bound<&usize> {
+        match self {
+            AnyRange::R(r) => r.start_bound(),
+            AnyRange::From(r) => r.start_bound(),
+            AnyRange::To(r) => r.start_bound(),
+            AnyRange::ToIncl(r) => r.start_bound(),
+            AnyRange::Incl(r) => r.start_bound(),
+            AnyRange::Full => (..).start_bound(),
+            AnyRange::Tuple(r) => r.start_bound(),
+        }
+    }
+    fn end_bound(&self) -> Bound<&usize> {
+        match self {
+            AnyRange::R(r) => r.end_bound(),
+            AnyRange::From(r) => r.end_bound(),
+            AnyRange::To(r) => r.end_bound(),
+            AnyRange::ToIncl(r) => r.end_bound(),
+            AnyRange::Incl(r) => r.end_bound(),
+            AnyRange::Full => Bound::Unbounded,
+            AnyRange::Tuple(r) => r.end_bound(),
+        }
+    }
+}
+
+pub fn any_range(r: Rg) -> AnyRange {
+    if !NATIVE_RANGES.load(std::sync::atomic::Ordering::Relaxed) {
+        return AnyRange::Tuple(r);
+    }
+    match r {
+        (Bound::Included(a), Bound::Excluded(b)) => AnyRange::R(a..b),
+        (Bound::Included(a), Bound::Unbounded) => AnyRange::From(a..),
+        (Bound::Unbounded, Bound::Excluded(b)) => AnyRange::To(..b),
+        (Bound::Unbounded, Bound::Included(b)) => AnyRange::ToIncl(..=b),
+        (Bound::Included(a), Bound::Included(b)) => AnyRange::Incl(a..=b),
+        (Bound::Unbounded, Bound::Unbounded) => AnyRange::Full,
+        _ => AnyRange::Tuple(r), // an excluded start has no native syntax
+    }
+}
+
 /// `Err(())` = the operation returned an allocation error (fixed capacity exhausted)
 pub type R = Result<(), ()>;
 
@@ -149,6 +206,25 @@ pub trait StrOps {
     fn finish(self: Box<Self>, _conv: Conv, _byte: u8, _len: usize) -> Fin {
         unreachable!()
     }
+    /// `clone()`: bytes and capacity of the clone.  The clone stays alive as a SECOND string of the
+    /// arena: `swap` makes it the string the next operations go to and parks the original (whose
+    /// expected contents are `expected`), otherwise the clone is parked.
+    fn clone_live(&mut self, _swap: bool, _expected: Vec<u8>) -> (Vec<u8>, usize) {
+        unreachable!()
+    }
+    /// number of parked strings
+    fn parked(&self) -> usize {
+        0
+    }
+    /// parks the current string (expected contents `expected`) and continues with parked string `i`;
+    /// returns the expected contents of that one
+    fn swap_live(&mut self, _i: usize, _expected: Vec<u8>) -> Vec<u8> {
+        unreachable!()
+    }
+    /// drops parked string `i` (its memory goes back to the arena if it is the newest allocation)
+    fn drop_parked(&mut self, _i: usize) {
+        unreachable!()
+    }
     fn display(&self) -> (String, String);
 }
 
@@ -208,7 +284,7 @@ macro_rules! common_ops {
             self.s.retain(|c| f(c))
         }
         fn drain(&mut self, r: Rg, take: usize) -> Vec<char> {
-            let mut d = self.s.drain(r);
+            let mut d = self.s.drain(any_range(r));
             take_front(&mut d, take)
         }
         fn display(&self) -> (String, String) {
@@ -233,10 +309,10 @@ macro_rules! growing_ops {
             if t { self.s.try_insert_str(i, x).map_err(|_| ()) } else { self.s.insert_str(i, x); Ok(()) }
         }
         fn replace_range(&mut self, r: Rg, x: &str, t: bool) -> R {
-            if t { self.s.try_replace_range(r, x).map_err(|_| ()) } else { self.s.replace_range(r, x); Ok(()) }
+            if t { self.s.try_replace_range(any_range(r), x).map_err(|_| ()) } else { self.s.replace_range(any_range(r), x); Ok(()) }
         }
         fn extend_from_within(&mut self, r: Rg, t: bool) -> R {
-            if t { self.s.try_extend_from_within(r).map_err(|_| ()) } else { self.s.extend_from_within(r); Ok(()) }
+            if t { self.s.try_extend_from_within(any_range(r)).map_err(|_| ()) } else { self.s.extend_from_within(any_range(r)); Ok(()) }
         }
         fn extend_zeroed(&mut self, n: usize, t: bool) -> R {
             if t { self.s.try_extend_zeroed(n).map_err(|_| ()) } else { self.s.extend_zeroed(n); Ok(()) }
@@ -294,7 +370,7 @@ macro_rules! config {
                     self.s.len()
                 }
                 fn split_off(&mut self, r: Rg, keep: bool) -> (Vec<u8>, usize) {
-                    let part = self.s.split_off(r);
+                    let part = self.s.split_off(any_range(r));
                     let res = (part.as_bytes().to_vec(), part.len());
                     if keep {
                         let p: &'a mut str = part.into_mut();
@@ -333,7 +409,7 @@ macro_rules! config {
                     self.s.capacity()
                 }
                 fn split_off(&mut self, r: Rg, keep: bool) -> (Vec<u8>, usize) {
-                    let part = self.s.split_off(r);
+                    let part = self.s.split_off(any_range(r));
                     let res = (part.as_bytes().to_vec(), part.capacity());
                     if keep {
                         let p: &'a mut str = part.into_str();
@@ -378,6 +454,7 @@ macro_rules! config {
                 s: BumpString<&'a B>,
                 bump: &'a B,
                 o: Others<'a>,
+                parked: Vec<(BumpString<&'a B>, Vec<u8>)>,
             }
             impl<'a> StrOps for AdBump<'a> {
                 common_ops!();
@@ -395,7 +472,7 @@ macro_rules! config {
                     self.s.shrink_to_fit()
                 }
                 fn split_off(&mut self, r: Rg, keep: bool) -> (Vec<u8>, usize) {
-                    let part = self.s.split_off(r);
+                    let part = self.s.split_off(any_range(r));
                     let res = (part.as_bytes().to_vec(), part.capacity());
                     if keep {
                         // keep the split-off string alive (it must stay untouched); otherwise it is dropped
@@ -409,10 +486,41 @@ macro_rules! config {
                     probe_in(self.bump, &mut self.o, byte, len)
                 }
                 fn others_intact(&self) -> Result<(), String> {
+                    for (i, (p, want)) in self.parked.iter().enumerate() {
+                        if p.as_bytes() != &want[..] {
+                            return Err(format!("the other live string {i} (a clone / the cloned original) changed from {} to {}", hex(want), hex(p.as_bytes())));
+                        }
+                        if p.capacity() < p.len() {
+                            return Err(format!("the other live string {i}: len {} > capacity {}", p.len(), p.capacity()));
+                        }
+                    }
                     self.o.intact()
                 }
+                fn clone_live(&mut self, swap: bool, expected: Vec<u8>) -> (Vec<u8>, usize) {
+                    let c = self.s.clone();
+                    let res = (c.as_bytes().to_vec(), c.capacity());
+                    if swap {
+                        let orig = std::mem::replace(&mut self.s, c);
+                        self.parked.push((orig, expected));
+                    } else {
+                        self.parked.push((c, expected));
+                    }
+                    res
+                }
+                fn parked(&self) -> usize {
+                    self.parked.len()
+                }
+                fn swap_live(&mut self, i: usize, expected: Vec<u8>) -> Vec<u8> {
+                    std::mem::swap(&mut self.s, &mut self.parked[i].0);
+                    std::mem::replace(&mut self.parked[i].1, expected)
+                }
+                fn drop_parked(&mut self, i: usize) {
+                    drop(self.parked.remove(i));
+                }
                 fn finish(self: Box<Self>, conv: Conv, byte: u8, len: usize) -> Fin {
-                    let AdBump { s, bump, mut o } = *self;
+                    let AdBump { s, bump, mut o, parked } = *self;
+                    // the other live strings stay alive (leaked) across the conversion
+                    std::mem::forget(parked);
                     let out: &'a [u8] = match conv {
                         Conv::IntoCstr => s.into_cstr().to_bytes_with_nul(),
                         Conv::IntoStr => s.into_str().as_bytes(),
@@ -489,7 +597,7 @@ macro_rules! config {
                                 s
                             }
                         };
-                        f(Box::new(AdBump { s, bump: b, o: Others::default() }))
+                        f(Box::new(AdBump { s, bump: b, o: Others::default(), parked: Vec::new() }))
                     }
                     Kind::Mut => {
                         let scope: &mut Sc<'_> = bump.as_mut_scope();
